@@ -70,9 +70,17 @@ class C05(Check):
                         out.append({"part": "pad", "api": "exact", "h": h, "tb": list(tb), "fill": fill, "kind": kind})
             for dv in b["vpad"]:
                 out.append({"part": "pad", "api": "old", "h": h, "dv": dv, "fill": " ", "kind": "text"})
+        # draw() parameters of images: a padding height below the render height has no effect, for stills and for every
+        # frame of an animation (delegated to the draw() harness of C06: terminal model with the probe cell)
+        for n in (1, 2):
+            out.append({"part": "draw_small_pad", "api": "old", "h": 2, "dv": -1, "frames": n, "loops": 1})
         return out
 
     def setup(self, shape, concrete):
+        if shape["part"] == "draw_small_pad":
+            from .C06 import CHECK as C06C
+
+            return C06C.setup(shape, concrete)
         from PIL import Image
 
         from term_image import geometry, padding
@@ -188,6 +196,10 @@ class C05(Check):
 
     # -------------------------------------------------------------------- pad
     def body(self, eng, shape):
+        if shape["part"] == "draw_small_pad":
+            from .C06 import CHECK as C06C
+
+            return C06C.body(eng, shape)
         if shape["part"] == "laws":
             return self.laws(eng, shape)
         P, G = self.P, self.G
